@@ -14,16 +14,27 @@ ASSUMPTIONS = [
 ]
 
 
-def populate(shape):
+def populate(shape, variant=0):
+    """variant 0: every field populated, namespace map shared by the whole tree;
+    variant 1: sparse - prefix set but no namespace map, no attributes, no extras, no tail;
+    variant 2: only a namespace map (declared at the root) and attributes; no content, prefix, extras"""
     g = gtree.clone(shape)
     for i, (path, n) in enumerate(gtree.walk(g)):
         n["id"] = None
-        n["content"] = f"c{i}"
-        n["tail"] = f"t{i}"
-        n["attrs"] = [["k", f"v{i}"], ["k2", "same"]]
-        n["extras"] = [["p:e", "w"]]
-        n["prefix"] = "p"
-    g["ns"] = [["p", "urn:u1"], ["q", "urn:u2"]]
+        if variant == 0:
+            n["content"] = f"c{i}"
+            n["tail"] = f"t{i}"
+            n["attrs"] = [["k", f"v{i}"], ["k2", "same"]]
+            n["extras"] = [["p:e", "w"]]
+            n["prefix"] = "p"
+        elif variant == 1:
+            n["content"] = f"c{i}"
+            n["prefix"] = "p"
+        else:
+            n["attrs"] = [["k", f"v{i}"]]
+            n["tail"] = f"t{i}"
+    if variant in (0, 2):
+        g["ns"] = [["p", "urn:u1"], ["q", "urn:u2"]]
     return g
 
 
@@ -39,24 +50,32 @@ def differences(g, path):
         out.append((label, None, fn))
     G("name", lambda x: x.__setitem__("name", "zz"))
     G("content_other", lambda x: x.__setitem__("content", "other"))
-    G("content_none", lambda x: x.__setitem__("content", None))
+    if n["content"] is not None:
+        G("content_none", lambda x: x.__setitem__("content", None))
     G("content_empty", lambda x: x.__setitem__("content", ""))
     G("tail_other", lambda x: x.__setitem__("tail", "other"))
-    G("tail_none", lambda x: x.__setitem__("tail", None))
-    G("attr_value", lambda x: x.__setitem__("attrs", [["k", "changed"], ["k2", "same"]]))
+    if n["tail"] is not None:
+        G("tail_none", lambda x: x.__setitem__("tail", None))
+    else:
+        G("tail_empty", lambda x: x.__setitem__("tail", ""))
     G("attr_added", lambda x: x.__setitem__("attrs", x["attrs"] + [["k3", "n"]]))
-    G("attr_removed", lambda x: x.__setitem__("attrs", x["attrs"][:1]))
-    G("attr_key_renamed", lambda x: x.__setitem__("attrs", [["k9", x["attrs"][0][1]], ["k2", "same"]]))
-    G("extras_value", lambda x: x.__setitem__("extras", [["p:e", "changed"]]))
+    if n["attrs"]:
+        G("attr_value", lambda x: x.__setitem__("attrs", [[x["attrs"][0][0], "changed"]] + x["attrs"][1:]))
+        G("attr_removed", lambda x: x.__setitem__("attrs", x["attrs"][1:]))
+        G("attr_key_renamed", lambda x: x.__setitem__("attrs", [["k9", x["attrs"][0][1]]] + x["attrs"][1:]))
     G("extras_added", lambda x: x.__setitem__("extras", x["extras"] + [["p:f", "n"]]))
-    G("extras_removed", lambda x: x.__setitem__("extras", []))
-    G("extras_key_renamed", lambda x: x.__setitem__("extras", [["p:z", "w"]]))
+    if n["extras"]:
+        G("extras_value", lambda x: x.__setitem__("extras", [["p:e", "changed"]]))
+        G("extras_removed", lambda x: x.__setitem__("extras", []))
+        G("extras_key_renamed", lambda x: x.__setitem__("extras", [["p:z", "w"]]))
     G("prefix_other", lambda x: x.__setitem__("prefix", "q"))
-    G("prefix_none", lambda x: x.__setitem__("prefix", None))
-    P("nsmap_value", lambda nd: setattr(nd, "nsmap", dict(nd.nsmap, p="urn:changed")))
+    if n["prefix"] is not None:
+        G("prefix_none", lambda x: x.__setitem__("prefix", None))
     P("nsmap_added", lambda nd: setattr(nd, "nsmap", dict(nd.nsmap, r="urn:r")))
-    P("nsmap_removed", lambda nd: setattr(nd, "nsmap", {k: v for k, v in nd.nsmap.items() if k != "q"}))
-    P("nsmap_key_renamed", lambda nd: setattr(nd, "nsmap", {("qq" if k == "q" else k): v for k, v in nd.nsmap.items()}))
+    if g["ns"]:
+        P("nsmap_value", lambda nd: setattr(nd, "nsmap", dict(nd.nsmap, p="urn:changed")))
+        P("nsmap_removed", lambda nd: setattr(nd, "nsmap", {k: v for k, v in nd.nsmap.items() if k != "q"}))
+        P("nsmap_key_renamed", lambda nd: setattr(nd, "nsmap", {("qq" if k == "q" else k): v for k, v in nd.nsmap.items()}))
     G("child_added_last", lambda x: x["children"].append(dict(gtree.plain("a"), content="new")))
     G("child_added_first", lambda x: x["children"].insert(0, dict(gtree.plain("a"), content="new")))
     if n["children"]:
@@ -158,7 +177,8 @@ def replay(case):
 
 def explore(tier):
     maxn = 6 if tier == "quick" else 8
-    shapes = [populate(s) for s in gtree.shapes_upto(maxn)]
+    shapes = [populate(s, v) for s in gtree.shapes_upto(maxn) for v in (0, 1, 2)
+              if v == 0 or gtree.gsize(s) <= maxn - 1]
     accs = core.pmap(work, shapes, chunksize=2)
     acc = core.merge_all(accs)
     n = acc.counts.get("pairs", 0)
